@@ -5,6 +5,7 @@ package service
 
 import (
 	"container/list"
+	"errors"
 	"net"
 	"os"
 	"sync"
@@ -187,7 +188,7 @@ func VH_C12_stream_once() {
 		verifAssert("C12.stream.pending-accept-unblocked", len(r2) == 1)
 		if len(r2) == 1 {
 			a := <-r2
-			verifAssert("C12.stream.unblocked-with-errclosed", a.conn == nil && a.err == net.ErrClosed)
+			verifAssert("C12.stream.unblocked-with-errclosed", a.conn == nil && errors.Is(a.err, net.ErrClosed))
 		}
 		verifReach("C12.stream.first-handle-won", true)
 	} else {
@@ -196,7 +197,7 @@ func VH_C12_stream_once() {
 		verifAssert("C12.stream.pending-accept-unblocked", len(r1) == 1)
 		if len(r1) == 1 {
 			a := <-r1
-			verifAssert("C12.stream.unblocked-with-errclosed", a.conn == nil && a.err == net.ErrClosed)
+			verifAssert("C12.stream.unblocked-with-errclosed", a.conn == nil && errors.Is(a.err, net.ErrClosed))
 		}
 		verifReach("C12.stream.second-handle-won", true)
 	}
@@ -222,7 +223,7 @@ func VH_C12_stream_once() {
 	// later calls on closed handles keep failing the same way; double close is a no-op
 	_, e1 := h1.AcceptStream()
 	_, e2 := h2.AcceptStream()
-	verifAssert("C12.stream.closed-handle-errclosed", e1 == net.ErrClosed && e2 == net.ErrClosed)
+	verifAssert("C12.stream.closed-handle-errclosed", errors.Is(e1, net.ErrClosed) && errors.Is(e2, net.ErrClosed))
 	verifAssert("C12.stream.double-close-noop", h1.Close() == nil && h2.Close() == nil && closes == 1)
 	// the address can be bound again
 	ta := addr.(*net.TCPAddr)
@@ -306,7 +307,7 @@ func VH_C12_packet_once() {
 	verifAssert("C12.packet.pending-read-unblocked", len(rw) == 1)
 	if len(rw) == 1 {
 		a := <-rw
-		verifAssert("C12.packet.unblocked-with-errclosed", a.err == net.ErrClosed)
+		verifAssert("C12.packet.unblocked-with-errclosed", errors.Is(a.err, net.ErrClosed))
 	}
 	verifAssert("C12.packet.socket-kept", pc.closed == 0 && closes == 0)
 	verifAssert("C12.packet.last-close-ok", other.Close() == nil)
@@ -329,7 +330,7 @@ func VH_C12_packet_closed_handle() {
 		verifQuiesce() // the shared reader now holds the datagram and waits for a request
 		buf := make([]byte, 8)
 		n, _, err := h2.ReadFrom(buf)
-		verifAssert("C12.closed-handle.read-fails", err == net.ErrClosed && n == 0)
+		verifAssert("C12.closed-handle.read-fails", errors.Is(err, net.ErrClosed) && n == 0)
 		// the datagram is still there for the open handle
 		r1 := verifReadAsync(h1)
 		verifQuiesce()
@@ -368,7 +369,8 @@ func VH_C12_packet_reacquire() {
 func VH_C13_listen_vs_close() {
 	verifSched(2)
 	delete(verifBoundPC, "127.0.0.1:9000")
-	lm := NewListenerManager().(*listenerManager)
+	lm, isLM := NewListenerManager().(*listenerManager)
+	verifAssume(isLM) // otherwise this harness does not apply
 	var t1started sync.WaitGroup
 	if verifNative() {
 		// native replay: hold the closing goroutine inside the shared listener's critical section
@@ -819,7 +821,7 @@ func VH_C13_repeated_close() {
 		h.Close()
 		done <- 3
 		_, err := h.AcceptStream()
-		verifAssert("C13.repeated-close.accept-errclosed", err == net.ErrClosed)
+		verifAssert("C13.repeated-close.accept-errclosed", errors.Is(err, net.ErrClosed))
 		done <- 4
 		h.Close()
 		done <- 5
@@ -963,7 +965,7 @@ func VH_C12_closed_handle_never_accepts() {
 		verifQuiesce() // the connection is now on offer to the handles
 		for i := 0; i < 3; i++ {
 			c, err := h1.AcceptStream()
-			verifAssert("C12.closed-handle.later-accept-fails-the-same-way", c == nil && err == net.ErrClosed)
+			verifAssert("C12.closed-handle.later-accept-fails-the-same-way", c == nil && errors.Is(err, net.ErrClosed))
 			// (a stopped configuration's serve loop that looks again gets nothing: C10)
 			verifAssert("C10.closed-handle.stopped-generation-takes-no-new-connection", c == nil && err != nil)
 			if c != nil {
@@ -1334,7 +1336,7 @@ func VH_C12_close_while_datagram_in_hand() {
 				verifAssert("C12.in-hand.intact", p.n == 3 && p.data[0] == 7)
 				got++
 			} else {
-				verifAssert("C12.in-hand.closed-error", p.err == net.ErrClosed)
+				verifAssert("C12.in-hand.closed-error", errors.Is(p.err, net.ErrClosed))
 			}
 		}
 		// whatever the closed handle did not return goes to the handle that keeps reading
